@@ -182,12 +182,15 @@ def make(sym):
             for er_mode in sorted(set([er, 0, 1])):
                 for b in sorted(set([beta, False, True])):
                     try:
-                        bad, info = run_real(name, "hardsphere", sym["dim"], er_mode, b)
+                        bad, info = run_real(name, "squarewell", sym["dim"], er_mode, b)
                     except Exception as exc:
-                        tried.append({"model": name, "error": repr(exc)})
-                        continue
+                        # squarewell's radius_effective is dispersible: every
+                        # combination tried here is a legal call
+                        return True, {"call": "ProductKernel(make_product_info(%s, squarewell), stubs).Iq, "
+                                              "radius_effective_mode=%d, beta=%s" % (name, er_mode, b),
+                                      "raised": repr(exc)}
                     if bad:
-                        return True, {"call": "ProductKernel(make_product_info(%s, hardsphere), stubs).Iq" % name,
+                        return True, {"call": "ProductKernel(make_product_info(%s, squarewell), stubs).Iq" % name,
                                       "inputs": info, "mismatches": bad}
                     tried.append(info)
         return False, {"tried": tried[:6]}
@@ -200,11 +203,11 @@ def make_frame(sym):
         for name in names:
             for er_mode in (1, 0):
                 try:
-                    bad, info = run_real(name, "hardsphere", sym["dim"], er_mode, False)
+                    bad, info = run_real(name, "squarewell", sym["dim"], er_mode, False)
                 except Exception as exc:
                     continue
                 if info.get("frame"):
-                    return True, {"call": "ProductKernel(make_product_info(%s, hardsphere), stubs).Iq "
+                    return True, {"call": "ProductKernel(make_product_info(%s, squarewell), stubs).Iq "
                                           "with dispersity on radius_effective, mode %d" % (name, er_mode),
                                   "frame_violation": info["frame"]}
         return False, {"note": "caller's arrays unchanged in the replayed cases"}
